@@ -215,7 +215,8 @@ def run_case(case):
                         raise
                     rec['outcome'] = 'raise:' + type(ex).__name__
                     rec['exception'] = traceback.format_exc()[-1200:]
-                    rec['exc_injected'] = 'injected' in str(ex)
+                    rec['exc_msg'] = str(ex)[:200]
+                    rec['exc_is_oserror'] = isinstance(ex, OSError)
                 inds = {}
 
                 def note(i):
@@ -240,24 +241,533 @@ def run_case(case):
                 rec['final_archive'] = [i.uid for i in best]
                 if result is not None:
                     res = []
-                    for g in result:
-                        owner = next((i.uid for i in best if i.graph is g), None)
+                    for j, g in enumerate(result):
+                        # several individuals may share one graph object: match by position first
+                        if j < len(best) and best[j].graph is g:
+                            owner = best[j].uid
+                        else:
+                            owner = next((i.uid for i in best if i.graph is g), None)
                         res.append({'uid': owner, 'id': g.descriptive_id, 'n_nodes': len(g.nodes)})
                     rec['result'] = res
                 rec['individuals'] = inds
             finally:
                 for cm in reversed(cms):
                     cm.__exit__(None, None, None)
-        if history_dir and os.path.isdir(history_dir):
-            dumped = set()
+        # what reached the disk: number of individual files per generation directory
+        rec['hist_isdir'] = bool(history_dir and os.path.isdir(history_dir))
+        counts = {}
+        if rec['hist_isdir']:
             for r, _, fs in os.walk(history_dir):
-                if fs and r != history_dir:
-                    dumped.add(os.path.relpath(r, history_dir).split(os.sep)[0])
-            rec['dumped_generations'] = sorted(dumped, key=lambda s: (len(s), s))
-        else:
-            rec['dumped_generations'] = None
+                top = os.path.relpath(r, history_dir).split(os.sep)[0]
+                if r != history_dir and os.path.isdir(os.path.join(history_dir, top)):
+                    counts[top] = counts.get(top, 0) + sum(1 for f in fs if f.endswith('.json'))
+        rec['dump_counts'] = counts
     finally:
         shutil.rmtree(tmp, ignore_errors=True)
     rec.update({'log': log, 'fired': fired, 'events': events, 'batches': batches, 'pops': pops,
                 'wall_s': round(time.time() - t0, 3)})
     return rec
+
+
+# ----------------------------------------------------------------------------------------------
+# recorded run -> Coq case (script reconstructed from the recorded oracle answers + observations)
+# ----------------------------------------------------------------------------------------------
+LABELS = {'initial_assumptions': 'LInitial', 'extended_initial_assumptions': 'LExtended',
+          'final_choices': 'LFinal', '': 'LNone', None: 'LNone'}
+FAULT_OUTCOME = {None: 'Value', 'raise': 'RaiseExc', 'none': 'NoneValue', 'nan': 'NaNValue', 'base': '(Escape (EInj 4))'}
+VIA_CODE = {'callback': 1, 'mutation': 2, 'factory': 3, 'objective_base': 4}
+MISSING = 9999
+
+
+def nats(l):
+    return c_list([c_nat(x) for x in l], 'nat')
+
+
+def c_exn_opt(e):
+    return '(@None exn)' if e is None else '(Some %s)' % e
+
+
+def observed_exn(rec, loop):
+    """Coq exn for the exception that reached the caller"""
+    out = rec['outcome']
+    if out == 'ok':
+        return None
+    tname = out.split(':', 1)[1]
+    msg = rec.get('exc_msg', '')
+    if 'injected loop failure' in msg:
+        want = (loop or {}).get('exc', 'RuntimeError')
+        return '(EInj 1)' if tname == want else 'EUnknown'
+    if 'injected failure in a mutation function' in msg and tname == 'InjectedLoopError':
+        return '(EInj 2)'
+    if 'injected failure in the random graph factory' in msg and tname == 'InjectedLoopError':
+        return '(EInj 3)'
+    if tname == 'InjectedBase':
+        return '(EInj 4)'
+    if tname == 'EvaluationAttemptsError':
+        return 'EAttempts'
+    if rec.get('exc_is_oserror'):
+        return 'EOs'
+    if tname == 'ValueError' and 'can not be evaluated again' in msg:
+        return 'EValue'
+    return 'EUnknown'
+
+
+class Builder:
+    def __init__(self, rec):
+        self.rec = rec
+        self.case = rec['case']
+        self.cfg = self.case['cfg']
+        self.io = self.case.get('io')
+        self.loop = self.case.get('loop')
+        self.populational = self.cfg['optimiser'] in optrun.POPULATIONAL
+        self.ids = {}
+        self.gens = rec['history']['generations']
+        self.snaps = rec['history']['archive']
+        self.saved = 0          # Individual.save calls made so far (save_patch)
+
+    def n(self, uid):
+        if uid is None:
+            return MISSING
+        return self.ids.setdefault(uid, len(self.ids))
+
+    # -- oracle answers -----------------------------------------------------------------
+    def io_ans(self, k):
+        if not self.io or not self.populational:
+            return '(@None (mk_ans * bool))'
+        size = len(self.gens[k]['members']) if k < len(self.gens) else 0
+        mode = self.io['mode']
+        if mode == 'ok':
+            mk, d = ('MkOk' if k == 0 else 'MkNotNeeded'), True
+        elif mode == 'exists':
+            mk, d = 'MkNotNeeded', True
+        elif mode == 'block_from':
+            mk, d = 'MkNotNeeded', (k < self.io['n'] or size == 0)
+        elif mode == 'save_patch':
+            mk, d = 'MkNotNeeded', (size == 0 or self.saved + size <= self.io['n'])
+            self.saved = self.saved + size if d else self.io['n'] + 1   # after the first failure every save fails
+        else:   # uncreatable / is_file
+            mk, d = 'MkFail', False
+        return '(Some (%s, %s))' % (mk, c_bool(d))
+
+    def upd(self, k, prev_arch, cb_index):
+        """oracle answers of the update that recorded history generation k"""
+        if k >= len(self.gens):
+            return '{| u_arch := %s; u_io := (@None (mk_ans * bool)); u_cb := (@None exn) |}' % nats([])
+        members = self.gens[k]['members']
+        pool = list(prev_arch) + list(members)
+        snap = self.snaps[k] if k < len(self.snaps) else []
+        ix = [pool.index(u) if u in pool else MISSING for u in snap]
+        cb = None
+        if self.loop and self.loop['via'] == 'callback' and self.populational and cb_index is not None \
+                and self.loop['at'] == cb_index and 'callback' in self.rec['fired']:
+            cb = '(EInj 1)'
+        return '{| u_arch := %s; u_io := %s; u_cb := %s |}' % (nats(ix), self.io_ans(k), c_exn_opt(cb))
+
+    def batch(self, b):
+        return '{| b_inds := %s; b_surrogate := %s |}' % (nats([self.n(u) for u in b['in']]), c_bool(b['surrogate']))
+
+    def step(self, bs, res, label, skip, upd):
+        return ('{| e_batches := %s; e_res := %s; e_label := %s; e_skip_if_empty := %s; e_upd := %s |}'
+                % (c_list([self.batch(b) for b in bs], 'batch'), res, label, c_bool(skip), upd))
+
+    def dummy_upd(self):
+        return self.upd(10 ** 6, [], None)
+
+    def evolve_failure(self):
+        """what the evolve step that left no population did (inferred)"""
+        fired = self.rec['fired']
+        if 'mutation' in fired:
+            return '(ERaise (EInj 2))'
+        if 'factory' in fired:
+            return '(ERaise (EInj 3))'
+        if self.rec['outcome'] == 'ok' or self.rec['outcome'] == 'raise:EvaluationAttemptsError':
+            return 'EAttemptsErr'
+        return '(ERaise EUnknown)'
+
+    # -- script --------------------------------------------------------------------------
+    def script(self):
+        rec = self.rec
+        batches = rec['batches']
+        for b in batches:
+            for u in b['in']:
+                self.n(u)
+        if not batches:
+            raise ValueError('no evaluator call was observed')
+        gens = self.gens
+        label = lambda k: LABELS.get(gens[k]['label'], 'LNone')
+        initial = self.batch(batches[0])
+        extend = 'None'
+        steps = []
+        final = self.dummy_upd()
+        prev_pop, prev_arch = [], []
+        k = 0                 # next history generation
+        if self.populational:
+            # segments of evaluator calls separated by recorded populations
+            segs, cur = [], []
+            for kind, i in rec['events'][1:]:
+                if kind == 'batch':
+                    cur.append(batches[i])
+                else:
+                    segs.append((cur, i))
+                    cur = []
+            trailing = cur
+            first = True
+            for bs, pop_i in segs:
+                if k >= len(gens):
+                    break
+                members = gens[k]['members']
+                if first:
+                    first = False
+                    init_upd = self.upd(k, prev_arch, pop_i)
+                    if bs:     # cannot happen: the initial population is recorded right after its evaluation
+                        raise ValueError('evaluator calls between the initial evaluation and its record')
+                elif gens[k]['label'] == 'final_choices':
+                    if bs:
+                        steps.append(self.step(bs, self.evolve_failure(), 'LNone', False, self.dummy_upd()))
+                    final = self.upd(k, prev_arch, pop_i)
+                else:
+                    off = [u for b in bs for u in (b['out'] or [])]
+                    pool = off + list(prev_pop) + list(prev_arch)
+                    ix = [pool.index(u) if u in pool else MISSING for u in members]
+                    st = self.step(bs, '(EPop %s)' % nats(ix), label(k), False, self.upd(k, prev_arch, pop_i))
+                    if gens[k]['label'] == 'extended_initial_assumptions' and not steps:
+                        extend = '(Some %s)' % st
+                    else:
+                        steps.append(st)
+                prev_arch = self.snaps[k] if k < len(self.snaps) else prev_arch
+                prev_pop = members
+                k += 1
+            if first:
+                init_upd = self.dummy_upd()
+            if trailing or (rec['outcome'] != 'ok' and not rec['fired']) or \
+                    (rec['outcome'] != 'ok' and set(rec['fired']) & {'mutation', 'factory'}):
+                escaped = bool(trailing) and trailing[-1]['out'] is None
+                res = '(EPop %s)' % nats([]) if escaped else self.evolve_failure()
+                steps.append(self.step(trailing, res, 'LNone', False, self.dummy_upd()))
+        else:
+            init_upd = self.upd(0, [], None) if gens else self.dummy_upd()
+            if gens:
+                prev_arch = self.snaps[0]
+                k = 1
+            for b in batches[1:]:
+                out = b['out']
+                if out is None:
+                    steps.append(self.step([b], '(EPop %s)' % nats([]), 'LNone', True, self.dummy_upd()))
+                    break
+                if out and k < len(gens):
+                    u = self.upd(k, prev_arch, None)
+                    prev_arch = self.snaps[k]
+                    k += 1
+                else:
+                    u = self.dummy_upd()
+                steps.append(self.step([b], '(EPop %s)' % nats(list(range(len(out)))), 'LNone', True, u))
+            if rec['outcome'] != 'ok' and not (batches[-1]['out'] is None):
+                steps.append(self.step([], self.evolve_failure(), 'LNone', True, self.dummy_upd()))
+            if rec['outcome'] == 'ok' and gens and gens[-1]['label'] == 'final_choices':
+                final = self.upd(len(gens) - 1, prev_arch, None)
+        return ('{| s_initial := %s; s_init_upd := %s; s_extend := %s; s_steps := %s; s_final_upd := %s |}'
+                % (initial, init_upd, extend, c_list(steps, 'estep'), final))
+
+    # -- observations --------------------------------------------------------------------
+    def succeeded(self):
+        rec = self.rec
+        log = rec['log']
+        ok = set()
+        for b in rec['batches']:
+            te = [u for u, v in zip(b['in'], b['in_valid']) if not v]
+            if b['surrogate']:
+                ok.update(te)
+                continue
+            entries = log[b['log_from']:b.get('log_to', len(log))]
+            for u, e in zip(te, entries):
+                if e['fault'] is None:
+                    ok.add(u)
+            for u, e in zip(b['in'], entries[len(te):]):     # parallel dispatcher: one-by-one retry
+                if e['fault'] is None:
+                    ok.add(u)
+        return ok
+
+    def initial_ok(self):
+        rec = self.rec
+        log = rec['log']
+        if self.populational and rec['pops']:
+            n0 = rec['pops'][0]['n_log']
+        elif rec['batches']:
+            n0 = rec['batches'][0].get('log_to', len(log))
+        else:
+            n0 = len(log)
+        return any(e['fault'] is None for e in log[:n0])
+
+    def dumped(self):
+        rec = self.rec
+        if not (self.io and self.populational and rec['hist_isdir']):
+            return []
+        return [k for k, g in enumerate(self.gens) if rec['dump_counts'].get(str(k), 0) == len(g['members'])]
+
+    def build(self, tamper=None):
+        rec = self.rec
+        replay = bool(rec.get('evaluator_observed')) and self.cfg.get('parallelization_mode', 'single') == 'single'
+        script = self.script()
+        n = self.n
+        gens = [(LABELS.get(g['label'], 'LNone'), [n(u) for u in g['members']]) for g in self.gens]
+        snaps = [[n(u) for u in s] for s in self.snaps]
+        result = [n(r['uid']) for r in (rec['result'] or [])]
+        outs = [[n(u) for u in b['out']] for b in rec['batches'] if b['out'] is not None]
+        pops = [[n(u) for u in p['uids']] for p in rec['pops']]
+        succeeded = sorted(n(u) for u in self.succeeded())
+        bad = []
+        bc = (self.cfg['objective'].get('faults') or {}).get('by_class')
+        if bc:
+            bad = sorted(n(u) for u, r in rec['individuals'].items()
+                         if r['n_nodes'] % bc[0] == bc[1] and not r['surrogate'])
+        invalid = sorted(n(u) for u, r in rec['individuals'].items() if not r['valid'])
+        bad = sorted(set(bad) | set(invalid))      # an individual recorded with an invalid fitness
+        exn = observed_exn(rec, self.loop)
+        fired = None
+        for via in ('callback', 'mutation', 'factory', 'objective_base'):
+            if via in rec['fired']:
+                fired = '(EInj %d)' % VIA_CODE[via]
+        if tamper == 'failed_in_generation' and gens:
+            gens[-1][1].append(9997)
+        sched = [FAULT_OUTCOME[e['fault']] for e in rec['log']]
+        n_real_evals = len(rec['log'])
+        term = ('{| c_replay := %s; c_show := %s; c_sched := %s; c_script := %s; c_out := %s; c_gens := %s; '
+                'c_snaps := %s; c_result := %s; c_outs := %s; c_nevals := %s; c_dumped := %s; c_pops := %s; '
+                'c_fired := %s; c_initial_ok := %s; c_succeeded := %s; c_bad_class := %s |}') % (
+            c_bool(replay), c_bool(bool(self.cfg.get('show_progress'))), c_list(sched, 'outcome'), script,
+            'OOk' if exn is None else '(ORaise %s)' % exn,
+            c_list(['(%s, %s)' % (l, nats(m)) for l, m in gens], '(label * list nat)'),
+            c_list([nats(s) for s in snaps], '(list nat)'), nats(result), c_list([nats(o) for o in outs], '(list nat)'),
+            c_nat(n_real_evals), nats(self.dumped()), c_list([nats(p) for p in pops], '(list nat)'),
+            c_exn_opt(fired), c_bool(self.initial_ok()), nats(succeeded), nats(bad))
+        facts = {'replay': replay, 'initial_ok': self.initial_ok(), 'fired': fired, 'exn': exn,
+                 'n_failed_evals': sum(1 for e in rec['log'] if e['fault'] is not None),
+                 'n_gens': len(gens), 'result_n': len(result), 'dumped': self.dumped()}
+        return term, facts
+
+
+# ----------------------------------------------------------------------------------------------
+# case generation
+# ----------------------------------------------------------------------------------------------
+KINDS = ['raise', 'none', 'nan']
+
+
+def fault_patterns(rng, quick):
+    """failure sets over evaluation indices and graph classes"""
+    pats = []
+    singles = range(0, 8) if quick else range(0, 16)
+    for i in singles:                                           # every single index up to N
+        pats.append(('single', {'by_index': {str(i): KINDS[i % 3]}}))
+    for a, w in ([(1, 3), (4, 6)] if quick else [(0, 2), (1, 3), (2, 8), (4, 6), (6, 12), (3, 20)]):   # bursts
+        pats.append(('burst', {'by_index': {str(j): rng.choice(KINDS) for j in range(a, a + w)}}))
+    for m in ([2, 3] if quick else [2, 3, 4, 5]):               # every k-th
+        for r in range(1 if quick else m):
+            pats.append(('every_kth', {'by_index': {str(j): KINDS[(m + r) % 3] for j in range(r, 120, m)}}))
+    for n in ([1, 2, 5] if quick else [1, 2, 3, 4, 5, 6, 8, 11, 15]):   # all-after-n (all offspring fail)
+        pats.append(('all_after', {'all_after': [n, rng.choice(KINDS)]}))
+    for m in ([2, 3] if quick else [2, 3, 4, 5]):               # graph classes (node count modulo)
+        for r in range(m):
+            pats.append(('by_class', {'by_class': [m, r, KINDS[(m + r) % 3]]}))
+    pats.append(('class_and_index', {'by_class': [3, 0, 'nan'], 'by_index': {'1': 'raise', '4': 'none'}}))
+    return pats
+
+
+def base_cfg(rng, optimiser, i):
+    cfg = optrun.random_config(rng, optimiser=optimiser)
+    cfg['num_of_generations'] = rng.choice([2, 3, 4]) if optimiser in optrun.POPULATIONAL else rng.choice([3, 5, 8])
+    cfg['scheme'] = ['generational', 'steady_state', 'parameter_free'][i % 3]
+    cfg['show_progress'] = bool((i // 3) % 2)
+    cfg['timeout_min'] = 5.0
+    return cfg
+
+
+def gen_cases(ctx):
+    rng = ctx.rng
+    quick = ctx.tier == 'quick'
+    kinds = list(optrun.OPTIMISERS)
+    cases = []
+    i = 0
+    # A. metric faults
+    pats = fault_patterns(rng, quick)
+    reps = ctx.budget(1, 4)
+    for rep in range(reps):
+        for tag, f in pats:
+            cfg = base_cfg(rng, kinds[i % 5], i)
+            cfg['objective']['faults'] = f
+            if tag == 'by_class' and i % 4 == 0 and cfg['optimiser'] in optrun.POPULATIONAL:
+                cfg['diversity_check'] = 1
+            if tag in ('by_class', 'all_after') and i % 7 == 3 and cfg['optimiser'] in optrun.POPULATIONAL:
+                cfg['parallelization_mode'] = 'populational'
+            if cfg['optimiser'] == 'surrogate' and i % 2 == 0:
+                cfg['num_of_generations'] = 6            # reaches a surrogate-evaluated generation
+            cases.append({'group': 'metric:' + tag, 'cfg': cfg})
+            i += 1
+    # B. persistence faults (populational classes dump; the random-search family never does)
+    ios = [{'mode': 'ok'}, {'mode': 'block_from', 'n': 0}, {'mode': 'block_from', 'n': 1}, {'mode': 'block_from', 'n': 2},
+           {'mode': 'save_patch', 'n': 0}, {'mode': 'save_patch', 'n': 3}, {'mode': 'save_patch', 'n': 7},
+           {'mode': 'uncreatable'}, {'mode': 'is_file'}, {'mode': 'exists'}]
+    for rep in range(ctx.budget(1, 8)):
+        for j, io in enumerate(ios):
+            opt = kinds[(i + j) % 5] if (rep + j) % 4 == 3 else optrun.POPULATIONAL[(i + j) % 3]
+            cfg = base_cfg(rng, opt, i)
+            if (i + rep) % 2:
+                cfg['objective']['faults'] = rng.choice(pats)[1]
+            cases.append({'group': 'io:' + io['mode'], 'cfg': cfg, 'io': io})
+            i += 1
+    # C. errors injected into the loop
+    loops = []
+    for at in ([0, 1, 2, 3] if quick else [0, 1, 2, 3, 4, 5]):
+        loops.append({'via': 'callback', 'at': at, 'exc': ['RuntimeError', 'KeyError', 'ValueError', 'OSError', 'KeyboardInterrupt'][at % 5]})
+    for at in ([0, 2, 5] if quick else [0, 1, 2, 3, 5, 8, 13]):
+        loops.append({'via': 'objective_base', 'at': at})
+    for at in ([0, 3] if quick else [0, 1, 2, 3, 6, 10]):
+        loops.append({'via': 'mutation', 'at': at})
+    for at in ([0, 2] if quick else [0, 1, 2, 4]):
+        loops.append({'via': 'factory', 'at': at})
+    for rep in range(ctx.budget(1, 5)):
+        for lp in loops:
+            if lp['via'] == 'callback':
+                opt = optrun.POPULATIONAL[i % 3]
+            elif lp['via'] == 'factory':
+                opt = 'random_search'
+            elif lp['via'] == 'mutation':
+                opt = ['evo', 'surrogate', 'pop_random_mutation', 'random_mutation'][i % 4]
+            else:
+                opt = kinds[i % 5]
+            for show in ([False, True] if (rep == 0 or not quick) else [bool(i % 2)]):
+                cfg = base_cfg(rng, opt, i)
+                cfg['show_progress'] = show
+                if rep % 2:
+                    cfg['objective']['faults'] = rng.choice(pats)[1]
+                cases.append({'group': 'loop:' + lp['via'], 'cfg': cfg, 'loop': lp})
+            i += 1
+    return cases
+
+
+def _work(case):
+    import logging
+    logging.disable(logging.CRITICAL)
+    import io as _io
+    import contextlib
+    try:
+        with contextlib.redirect_stderr(_io.StringIO()):      # tqdm writes to stderr
+            return run_case({k: v for k, v in case.items() if k != 'group'})
+    except BaseException as ex:  # noqa
+        return {'case': case, 'crash': '%s: %s\n%s' % (type(ex).__name__, ex, traceback.format_exc()[-1500:])}
+
+
+def summarise(case, rec, facts):
+    return {'case': {k: v for k, v in case.items() if k != 'group'}, 'group': case.get('group'),
+            'outcome': rec.get('outcome'), 'exception': (rec.get('exception') or '').strip().splitlines()[-1:] ,
+            'fired': rec.get('fired'), 'facts': facts,
+            'generations': [(g['label'], len(g['members'])) for g in rec['history']['generations']] if rec.get('history') else None,
+            'result': rec.get('result')}
+
+
+def classify(case, rec, facts):
+    """(what, finding_key) for a case whose holds_b is false"""
+    if facts['fired'] and rec['outcome'] == 'ok':
+        return 'an error raised inside the optimisation loop was discarded: the run returned normally', None
+    if facts['fired']:
+        return 'the error raised inside the loop did not reach the caller unchanged (%s)' % rec['outcome'], None
+    if rec['outcome'] == 'raise:EvaluationAttemptsError':
+        return 'EvaluationAttemptsError escaped from optimise', None
+    if rec['outcome'] != 'ok' and case.get('io') and rec.get('exc_is_oserror'):
+        return 'a failure of the history dump (%s) propagated out of optimise: %s' % (case['io']['mode'], rec['outcome']), None
+    if rec['outcome'] != 'ok':
+        return 'optimise raised %s although an initial graph evaluated and nothing was injected into the loop' % rec['outcome'], None
+    if facts['initial_ok'] and facts['result_n'] == 0:
+        return 'empty result although an initial graph evaluated', None
+    return 'an individual whose evaluation failed (or with an invalid fitness) is in a population, the history or the result', None
+
+
+def evaluate_cases(ctx, group, todo):
+    """todo: list of (case, rec).  Builds Coq cases, evaluates, reports."""
+    terms, metas = [], []
+    for case, rec in todo:
+        if 'crash' in rec:
+            ctx.error(group, 'driver crashed on %s: %s' % (json.dumps(case), rec['crash']))
+            continue
+        if rec.get('history') is None:
+            ctx.error(group, 'no history for %s: %s' % (json.dumps(case), rec.get('exception')))
+            continue
+        try:
+            term, facts = Builder(rec).build()
+        except Exception as ex:  # noqa
+            ctx.error(group, 'cannot reconstruct the run of %s: %s %s' % (json.dumps(case), type(ex).__name__, ex))
+            continue
+        terms.append(term)
+        metas.append((case, rec, facts))
+    return terms, metas
+
+
+def run(ctx):
+    ctx.rule = ('REAL runs of the five optimiser classes x genetic schemes x progress bar on/off x seeds with (A) metric '
+                'faults injected by evaluation index (every single index, bursts, every k-th, all-after-n) and by graph class '
+                '(node count modulo) x kinds raise/None/NaN, (B) history-dump faults (blocked generation directories from the '
+                'n-th on, Individual.save failing from its n-th call, un-creatable history_dir, history_dir naming a file), '
+                '(C) errors injected into the loop (iteration callback x 5 exception types, objective raising a BaseException, '
+                'mutation function, random graph factory); one case = one run; distinct = distinct case description; '
+                'non-trivial = at least one evaluation failed, a dump failed or an injected error fired')
+    ctx.trusted_extra = [
+        'the evolve step, the archive, the file system and the iteration callback are oracles: the model replays their '
+        'recorded answers (which evaluated/previous/archived individuals form the next population, what the archive kept)',
+        'evaluator calls are observed by wrapping evaluate_population of the two dispatcher classes inside the driver process',
+        'disk faults are exercised (directories replaced by files, Individual.save patched), not modelled below the oracle',
+        'Evo/Reproduction.v + ReproductionProofs.v (property C16) supply the model of the attempt loop of reproduce']
+    cases = gen_cases(ctx)
+    import concurrent.futures
+    workers = int(os.environ.get('VERIF_C07_WORKERS', '4'))
+    with concurrent.futures.ProcessPoolExecutor(workers) as ex:
+        recs = list(ex.map(_work, cases, chunksize=1))
+    terms, metas = evaluate_cases(ctx, 'runs', list(zip(cases, recs)))
+    # canary: a real run into whose last observed generation an individual that never evaluated is planted
+    canary_at = None
+    for (case, rec, facts) in metas:
+        if rec['outcome'] == 'ok' and facts['replay']:
+            t, _ = Builder(rec).build(tamper='failed_in_generation')
+            terms.append(t)
+            canary_at = len(terms) - 1
+            ctx.canaries += 1
+            break
+    res = ctx.coq_cases('runs', REQ, FN, terms, 2, shard=ctx.pick(6, 20))
+    if canary_at is not None and res[canary_at] == (False, False):
+        ctx.canaries_caught += 1
+    n_samples = 0
+    for (case, rec, facts), (ag, ho) in zip(metas, res):
+        nontrivial = facts['n_failed_evals'] > 0 or bool(facts['fired']) or bool(case.get('io') and case['io']['mode'] not in ('ok', 'exists'))
+        ctx.count(case['group'].split(':')[0], key=json.dumps({k: v for k, v in case.items() if k != 'group'}, sort_keys=True),
+                  nontrivial=nontrivial, optimiser=case['cfg']['optimiser'], pattern=case['group'], outcome=rec['outcome'],
+                  show_progress=bool(case['cfg'].get('show_progress')), scheme=case['cfg'].get('scheme'),
+                  initial_evaluated=facts['initial_ok'], replayed=facts['replay'],
+                  failed_evaluations=min(facts['n_failed_evals'], 10))
+        if not ho:
+            what, key = classify(case, rec, facts)
+            ctx.violate(case['group'], summarise(case, rec, facts), what, finding_key=key)
+        if not ag:
+            ctx.disagree(case['group'], summarise(case, rec, facts),
+                         'model replay (fault schedule + recorded oracle answers) differs from the run in outcome, '
+                         'evaluator outputs, generations, snapshots, result, evaluation count or dumped generations')
+        if n_samples < 5 and nontrivial and (n_samples == 0 or case['group'].split(':')[0] not in [s['group'].split(':')[0] for s in ctx.samples]):
+            ctx.sample(summarise(case, rec, facts))
+            n_samples += 1
+
+
+def replay(ctx, payload):
+    v = payload.get('violation') or payload.get('first_disagreement') or {}
+    c = (v.get('case') or {}).get('case')
+    if not c:
+        return
+    case = dict(c, group='replay')
+    rec = _work(case)
+    terms, metas = evaluate_cases(ctx, 'replay', [(case, rec)])
+    if not terms:
+        return
+    res = ctx.coq_cases('replay', REQ, FN, terms, 2)
+    case, rec, facts = metas[0]
+    ctx.count('replay', key=json.dumps(c, sort_keys=True), nontrivial=True)
+    if not res[0][1]:
+        what, key = classify(case, rec, facts)
+        ctx.violate('replay', summarise(case, rec, facts), what, finding_key=key)
+    if not res[0][0]:
+        ctx.disagree('replay', summarise(case, rec, facts), 'model replay differs from the run')
